@@ -348,7 +348,7 @@ def run_inner(args):
             ncv = rng.choice((3, 5, 8, 10))
             kind = 'rand'
             v = P.start(kind)
-        t = ph * mag / max(P.normM, 1e-3)
+        t = ph * mag / max(P0.normM if rep == 6 else P.normM, 1e-3)     # relaxation: growth bounded by exp(0.01 ||F0|| |t|) = exp(0.01 mag) whatever the width of the spectrum
         if not P.cplx and isinstance(t, complex) and t.imag != 0:
             v = v.to(dtype='complex128')
         what = 'expmv %s start=%s t=%s tol=%g ncv=%d normalize=%s rep=%d' % (P.what, kind, t, tol, ncv, normalize, rep)
@@ -381,7 +381,11 @@ def run_inner(args):
         if raised == '__stuck__':
             out_events += evs
             continue
-        ref = scipy.linalg.expm(t * P.M) @ c0
+        with np.errstate(all='ignore'):
+            ref = scipy.linalg.expm(t * P.M) @ c0
+        if not np.all(np.isfinite(ref)):
+            out_events.append({'op': 'skipped', 'what': what + ' dense reference overflows: accuracy not claimed'})
+            continue
         verd = {}
         try:
             c = P.dense(res)
